@@ -58,7 +58,9 @@ Fixpoint dtype_eqb (a b : dtype) : bool :=
 Definition TDecimalDefault : dtype := TDec 31 11.   (* precision or 31, scale or p//3+1 *)
 
 Definition is_const (t : dtype) : bool := match t with TConst _ => true | _ => false end.
-Definition without_const (t : dtype) : dtype := match t with TConst b => b | _ => t end.
+(* Const(Const(_)) cannot be constructed (Const.__init__ raises TypeError), so stripping every layer
+   is the same function on all constructible types *)
+Fixpoint without_const (t : dtype) : dtype := match t with TConst b => without_const b | _ => t end.
 Definition with_const (t : dtype) : dtype := match t with TConst _ => t | _ => TConst t end.
 Definition is_tyvar (t : dtype) : bool := match t with TVar _ => true | _ => false end.
 Definition var_name (t : dtype) : string :=
